@@ -297,8 +297,12 @@ func checkC13(c *Ctx, e *Env) {
 		okCancel := false
 		// the nested request literal is checked on the E1 side: all BatchBalance debits are keyed by the signer (C03) and amounts are req.Credits[i].Amount
 		amtOK := true
+		stale := ""
 		for _, o := range h.Outs {
 			for _, d := range h.Deltas(o) {
+				if d.Bad != "" && d.Col != "*" && stale == "" {
+					stale = d.Table + "." + d.Col + " at " + p.Pos(d.Ev.Pos.Pos()) + ": " + d.Bad
+				}
 				if d.Table == "BatchSupply" && d.Col == "CancelledAmount" && !d.Delta.IsZero() {
 					okCancel = true
 					s := d.Delta.String()
@@ -309,6 +313,7 @@ func checkC13(c *Ctx, e *Env) {
 			}
 		}
 		c.Check(okCancel && amtOK, "C13.OUT", "base.Bridge#cancels-request-credits", p.Pos(h.Fn.Pos()), "bridged amounts are cancelled: Δcancelled = parse(req.Credits[i].Amount) per credit on every committed path that bridges")
+		c.Check(stale == "", "C13.OUT", "base.Bridge#cancel-basis", p.Pos(h.Fn.Pos()), "every balance / supply column written while bridging out is based on content read in the same iteration (a row reused across credits entries would make the amounts cancelled differ from the amounts reported) "+stale)
 	}
 }
 
